@@ -14,7 +14,12 @@
 // position), eC (last entry among the two largest and at most C entries that are not a new
 // maximum).  MASK is the bit set of the pairs i<j (bit j*(j-1)/2+i) on which less(i,j) holds;
 // instead of mMASK the relation may be fI.J.K..: the total order 0<1<..<n-1 without the pairs
-// (I,I+1), (J,J+1), .. (not transitive), which scales to large n.
+// (I,I+1), (J,J+1), .. (not transitive), or cI.J..: the chain given by its covers only without
+// the links I, J, ..; both scale to large n.  sC, dC, eC may carry :LO:HI - deviations from the
+// all-zero / identity / all-records object only at positions LO <= i < HI.
+//
+// A trailing token %PAT is an API call pattern: Value only every J-th step (kJ), on a pseudo random
+// half of the steps (rSEED), twice in a row (d), never (n); observed values are "<step>=<value>".
 //
 // A trailing token @K is a window: only the first K objects are drained and compared and Next
 // is not called again (for families too large to drain: large n, factors or n at MaxInt).
@@ -109,9 +114,13 @@ func parsePred(tok string) func([]int) bool {
 		return func(a []int) bool { return fixedPred(i, a) }
 	}
 	if tok[0] == 's' || tok[0] == 'd' || tok[0] == 'e' {
-		c := atoi(tok[1:])
+		p := strings.Split(tok[1:], ":")
+		c, lo, hi := atoi(p[0]), 0, maxInt
+		if len(p) == 3 {
+			lo, hi = atoi(p[1]), atoi(p[2])
+		}
 		kind := tok[0]
-		return func(a []int) bool { return prunePred(kind, c, a) }
+		return func(a []int) bool { return prunePred(kind, c, lo, hi, a) }
 	}
 	if tok[0] == 'h' {
 		f := strings.Split(tok[1:], ":")
@@ -123,16 +132,18 @@ func parsePred(tok string) func([]int) bool {
 	panic("bad predicate " + tok)
 }
 
-// prunePred: the strongly pruning predicate families (a is never empty).
-func prunePred(kind byte, c int, a []int) bool {
+// prunePred: the strongly pruning predicate families (a is never empty); the entries that
+// deviate (non-zero / not at their position / not a new maximum) must lie at positions in [lo,hi).
+func prunePred(kind byte, c, lo, hi int, a []int) bool {
 	l := len(a)
 	last := a[l-1]
+	in := func(i int) bool { return lo <= i && i < hi }
 	switch kind {
 	case 's':
 		t := 0
-		for _, v := range a {
+		for i, v := range a {
 			t += v
-			if t > c {
+			if t > c || (v != 0 && !in(i)) {
 				return false
 			}
 		}
@@ -146,6 +157,9 @@ func prunePred(kind byte, c int, a []int) bool {
 			if v > i {
 				t++
 			}
+			if v != i && !in(i) {
+				return false
+			}
 		}
 		return t <= c
 	case 'e':
@@ -153,9 +167,12 @@ func prunePred(kind byte, c int, a []int) bool {
 			return false
 		}
 		t, mx := 0, -1
-		for _, v := range a {
+		for i, v := range a {
 			if v < mx {
 				t++
+				if !in(i) {
+					return false
+				}
 			} else {
 				mx = v
 			}
@@ -176,6 +193,16 @@ func parseLess(tok string) func(i, j int) bool {
 			}
 		}
 		return func(i, j int) bool { return i < j && !(j == i+1 && free[i]) }
+	}
+	if tok[0] == 'c' {
+		// the chain given by its covers only (less(i,j) iff j = i+1), without the listed links i
+		broken := map[int]bool{}
+		if len(tok) > 1 {
+			for _, t := range strings.Split(tok[1:], ".") {
+				broken[atoi(t)] = true
+			}
+		}
+		return func(i, j int) bool { return j == i+1 && !broken[i] }
 	}
 	mask, err := strconv.ParseUint(tok[1:], 10, 64)
 	if tok[0] != 'm' || err != nil {
@@ -650,22 +677,67 @@ func tup(a []int) string {
 }
 
 type drained struct {
-	vals []string // formatted values in the order produced
+	vals  []string // formatted values in the order produced (with a call pattern: "<step>=<value>" of the observed steps)
+	steps int      // number of calls of Next that returned true
 	tail string   // results of the three calls after the first false; "WIN" when the window was filled; "OVER" if the cap was hit
+}
+
+// callPat is the API call pattern of the case being executed ("" = Value after every Next):
+//   kJ     Value only after every J-th successful Next
+//   rSEED  Value only after a pseudo random half of the steps
+//   d      Value twice in a row after every step (both results must agree)
+//   n      Value never called
+// observe gives the number of Value calls after step i (0-based).
+var callPat string
+
+func observe(pat string, i int) int {
+	switch pat[0] {
+	case 'k':
+		if (i+1)%atoi(pat[1:]) == 0 {
+			return 1
+		}
+		return 0
+	case 'r':
+		h := uint64(atoi(pat[1:])) & 0x7fffffff
+		h = (h*1103515245 + 12345 + uint64(i+1)*7919) & 0x7fffffff
+		h = (h*1103515245 + 12345) & 0x7fffffff
+		return int(h>>12) & 1
+	case 'd':
+		return 2
+	case 'n':
+		return 0
+	}
+	panic("bad call pattern " + pat)
 }
 
 // drain calls next until it returns false, the window (if > 0) is filled, or more than limit
 // values were produced (an iterator that does not stop), formatting a copy of the value at each
-// step; unless the window was filled it then calls next three more times.
+// step; unless the window was filled it then calls next three more times.  With a call pattern
+// the values are observed only at the steps the pattern selects and recorded as "<step>=<value>".
 func drain(next func() bool, value func() string, limit, window int) drained {
 	var d drained
 	for next() {
-		d.vals = append(d.vals, value())
-		if window > 0 && len(d.vals) == window {
+		if callPat == "" {
+			d.vals = append(d.vals, value())
+		} else {
+			switch observe(callPat, d.steps) {
+			case 1:
+				d.vals = append(d.vals, fmt.Sprintf("%d=%s", d.steps, value()))
+			case 2:
+				v1 := value()
+				v2 := value()
+				if v1 != v2 {
+					v1 += "!=" + v2
+				}
+				d.vals = append(d.vals, fmt.Sprintf("%d=%s", d.steps, v1))
+			}
+		}
+		d.steps++
+		if window > 0 && d.steps == window {
 			d.tail = "WIN"
 			return d
 		}
-		if len(d.vals) > limit {
+		if d.steps > limit {
 			d.tail = "OVER"
 			return d
 		}
@@ -864,6 +936,12 @@ func exec(line string) hx.Result {
 	f := strings.Fields(line)
 	name := f[0]
 	window := 0
+	callPat = ""
+	if last := f[len(f)-1]; last[0] == '%' {
+		callPat = last[1:]
+		f = f[:len(f)-1]
+	}
+	defer func() { callPat = "" }()
 	if last := f[len(f)-1]; last[0] == '@' {
 		window = atoi(last[1:])
 		f = f[:len(f)-1]
@@ -1104,6 +1182,45 @@ func exec(line string) hx.Result {
 		panic("unknown iterator " + name)
 	}
 
+	if callPat != "" {
+		// expected at every observed step: the object the family has at that step (ordered
+		// iterators); for the iterators without a documented order: a member, never twice
+		if d.steps != len(ref) {
+			fail("call pattern %s: %d successful calls of Next, the family has %d objects", callPat, d.steps, len(ref))
+		}
+		member := map[string]bool{}
+		for _, r := range ref {
+			member[r] = true
+		}
+		seen := map[string]bool{}
+		for _, e := range d.vals {
+			eq := strings.IndexByte(e, '=')
+			i, v := atoi(e[:eq]), e[eq+1:]
+			if ordered {
+				if i >= len(ref) || ref[i] != v {
+					w := "<none>"
+					if i < len(ref) {
+						w = ref[i]
+					}
+					fail("call pattern %s: Value at step %d is %s, the object of that step is %s", callPat, i, clip(v), clip(w))
+				}
+			} else if !member[v] || seen[v] {
+				fail("call pattern %s: Value at step %d is %s: not a member of the family or seen before", callPat, i, clip(v))
+			}
+			seen[v] = true
+		}
+		if d.tail != "FFF" {
+			fail("after exhaustion the further calls gave %s", d.tail)
+		}
+		if ordered {
+			res.Obs = fmt.Sprintf("%d:%s;%s", d.steps, strings.Join(d.vals, "/"), d.tail)
+		} else {
+			res.Obs = fmt.Sprintf("%d:;%s ## %s", d.steps, d.tail, strings.Join(d.vals, "/"))
+		}
+		res.Nontrivial = len(ref) >= 2
+		res.Buckets = []string{name, "call-pattern:" + callPat[:1], name + ":call-pattern"}
+		return res
+	}
 	got := d.vals
 	if !ordered {
 		got = sortedStrings(d.vals)
@@ -1401,6 +1518,8 @@ func gen(g *hx.Gen) {
 
 	genLarge(g)
 	genExtreme(g)
+	genHighIndex(g)
+	genCallPatterns(g)
 
 	// two iterators alive at once, calls interleaved (same and different constructors)
 	solo := []string{"product 2 3 2", "product 3 1 2", "comb 6 3", "comb 5 2", "colex 6 3", "colex 5 4", "mcomb 3 2 1 2", "mcomb 2 1 1 1 1",
@@ -1542,6 +1661,102 @@ func genLarge(g *hx.Gen) {
 		g.Emit(fmt.Sprintf("intparts %d @%d", n, win))
 	}
 	g.Exhaustive(fmt.Sprintf("large objects, small families: for each length L in %v every iterator with parameters that keep the family small (factors 1 and 2, k near 0 or near n, one huge multiplicity, strongly pruning predicates, near-total orders) or a window of the first %d objects", lens, win))
+}
+
+// genHighIndex: the predicate- and order-driven iterators at sizes around 64 and 128 with tiny
+// families whose decisive predicate answers / order constraints sit at HIGH indices (>= 64, >= 128),
+// and, for comparison, at low ones.
+func genHighIndex(g *hx.Gen) {
+	sizes := []int{63, 64, 65, 66, 67, 70, 127, 128, 129, 130}
+	if g.Thorough() {
+		sizes = []int{62, 63, 64, 65, 66, 67, 68, 69, 70, 126, 127, 128, 129, 130, 131, 192, 193}
+	}
+	for _, L := range sizes {
+		// TopologicalSorts: near-total orders and chains given by covers, free pairs / broken links at the top and at the bottom
+		for _, rel := range []string{"f", fmt.Sprintf("f%d", L-2), fmt.Sprintf("f%d.%d", L-4, L-2), fmt.Sprintf("f%d", L-3), "f0", "f0.2", fmt.Sprintf("f0.%d", L-2),
+			"c", fmt.Sprintf("c%d", L-2), "c0", fmt.Sprintf("c%d", L-3)} {
+			if rel == fmt.Sprintf("c%d", L-3) && L > 70 {
+				continue // C(L,2) sorts
+			}
+			g.Emit(fmt.Sprintf("topo %s %d", rel, L))
+		}
+		if L > 66 {
+			g.Emit(fmt.Sprintf("topo f63.65 %d", L))
+			g.Emit(fmt.Sprintf("topo f62.64.%d %d", L-2, L))
+		}
+		// RestrictedPrefixPermutations, PermutationsByPattern, RestrictedPrefixProduct: deviations only at the top / only at the bottom
+		for _, rg := range []string{fmt.Sprintf(":%d:%d", L-4, L), fmt.Sprintf(":%d:%d", L-6, L-1), ":0:4", ":1:6"} {
+			g.Emit(fmt.Sprintf("rpperm d1%s %d", rg, L))
+			g.Emit(fmt.Sprintf("pattern e1%s %d", rg, L))
+			if L <= 70 || g.Thorough() {
+				g.Emit(fmt.Sprintf("rpperm d2%s %d", rg, L))
+				g.Emit(fmt.Sprintf("pattern e2%s %d", rg, L))
+			}
+			g.Emit(fmt.Sprintf("rpprod s2%s %s", rg, ints(rep(L, 2))))
+			g.Emit(fmt.Sprintf("rpprod s2%s %s", rg, ints(rep(L, 3))))
+		}
+		g.Emit(fmt.Sprintf("rpperm d0 %d", L))
+		g.Emit(fmt.Sprintf("pattern e0 %d", L))
+		g.Emit(fmt.Sprintf("rpprod s1 %s", ints(rep(L, 2))))
+		if L <= 70 {
+			g.Emit(fmt.Sprintf("rpperm d1 %d", L))
+			g.Emit(fmt.Sprintf("pattern e1 %d", L))
+			g.Emit(fmt.Sprintf("rpprod s2 %s", ints(rep(L, 2))))
+		}
+	}
+	g.Exhaustive(fmt.Sprintf("predicate- and order-driven iterators at sizes %v with tiny families: decisive constraints / predicate answers at the highest indices and at the lowest", sizes))
+}
+
+// genCallPatterns: API call patterns other than "Value after every Next".
+func genCallPatterns(g *hx.Gen) {
+	r := g.Rng
+	pats := func() []string {
+		return []string{"k2", "k3", "k5", fmt.Sprintf("r%d", r.Intn(1<<30)), fmt.Sprintf("r%d", r.Intn(1<<30)), "d", "n"}
+	}
+	var base []string
+	every := g.Pick(3, 1)
+	cnt := 0
+	add := func(c string) {
+		cnt++
+		if cnt%every == 0 {
+			base = append(base, c)
+		}
+	}
+	for l := 1; l <= 4; l++ {
+		lists(l, 0, 3, func(m []int) {
+			for k := 1; k < sum(m); k++ {
+				add(fmt.Sprintf("mcomb %d %s", k, ints(m)))
+			}
+		})
+	}
+	every = g.Pick(2, 1)
+	for l := 1; l <= 3; l++ {
+		lists(l, 1, 3, func(a []int) { add("product " + ints(a)) })
+		lists(l, 0, 3, func(a []int) {
+			if sum(a) >= 2 && sum(a) <= 6 {
+				add("mperm " + ints(a))
+			}
+		})
+	}
+	for n := 2; n <= 7; n++ {
+		for k := 1; k < n; k++ {
+			add(fmt.Sprintf("comb %d %d", n, k))
+			add(fmt.Sprintf("colex %d %d", n, k))
+		}
+	}
+	every = 1
+	for _, c := range []string{"lexperm 3", "lexperm 4", "lexperm 5", "heap 3", "heap 4", "heap 5", "parts 3", "parts 4", "parts 5", "parts 6", "intparts 6", "intparts 9", "intparts 13",
+		"rpprod p0 3 2 3", "rpprod p4 3 3 3", "rpprod p5 2 4 3", "rpprod p3 3 3 3", "rpperm p0 4", "rpperm p5 5", "rpperm p10 5", "rpperm p9 5",
+		"pattern p0 4", "pattern p12 5", "pattern p4 5", "topo m0 4", "topo m5 4", "topo m9 5", "topo m300 5",
+		"mcomb 5 2 1 3 2", "mcomb 17 15 2 1", "mperm 15 1 1", "comb 18 16", "colex 18 16", "product 1 1 1 1 1 1 1 1 1 1 1 1 1 1 1 2 2 2"} {
+		add(c)
+	}
+	for _, c := range base {
+		for _, p := range pats() {
+			g.Emit(c + " %" + p)
+		}
+	}
+	g.Exhaustive(fmt.Sprintf("API call patterns: %d constructor calls each driven with Value only every 2nd/3rd/5th step, on two pseudo random halves of the steps, twice in a row, and never; the value observed at a step must be the object of that step", len(base)))
 }
 
 // genExtreme: parameters at the ends of the int range whose sums or products overflow while the
